@@ -176,7 +176,10 @@ def harness(cmd, payload, profile="debug", timeout=300, mem_kb=4 * 1024 * 1024):
         raise CheckError("harness %s timed out after %ds" % (cmd, timeout))
     if p.returncode != 0:
         raise CheckError("harness %s exited %d: %s" % (cmd, p.returncode, p.stderr[-2000:]))
-    return json.loads(p.stdout)
+    k = p.stdout.rfind("@@JSON@@")
+    if k < 0:
+        raise CheckError("harness %s produced no result: %s" % (cmd, p.stdout[-500:]))
+    return json.loads(p.stdout[k + 8:])
 
 
 # ---------------------------------------------------------------- model side (Coq)
